@@ -705,7 +705,8 @@ mutant('C02', 'motor-load-setter-forwards-to-driving', DC, 'super(DCMotor, type(
 mutant('C01', 'motor-speed-setter-forwards-to-position', DC, 'super(DCMotor, type(self)).angular_speed.fset(self, angular_speed)', 'super(DCMotor, type(self)).angular_position.fset(self, angular_speed)', 'C01.forwarding')
 mutant('C17', 'motor-torque-getter-forwards-to-load', DC, '        return super().torque\n', '        return super().load_torque\n', 'C17.forwarding')
 mutant('C14', 'add-rule-does-not-append', 'gearpy/motor_control/pwm_control.py', 'self.__rules.append(rule)', 'self.__rules = [rule]', 'C14.shape')
-mutant('C14', 'pwm-not-initialised', DC, '        self.__pwm = 1\n', '        self.__pwm = 0\n', 'C14.range')
+mutant('C14', 'pwm-initialised-out-of-range', DC, '        self.__pwm = 1\n', '        self.__pwm = 2\n', 'C14.range')
+benign('C14', 'pwm-initialised-through-setter', DC, '        self.__pwm = 1\n', '        self.pwm = 1\n')
 
 # ------------------------------------------------------------------------------------------ C20 comprehension forms (round 2)
 _SCAN = """        self.__self_locking = False
